@@ -10,6 +10,7 @@ Records outside a begin..end pair are 'stray' (delivery not synchronous).
 """
 from collections import ChainMap, UserDict
 from collections.abc import MutableMapping
+import ast
 from fractions import Fraction
 import itertools
 import math
@@ -39,6 +40,10 @@ RULE = ("a sender block (custom SBlock calling set_output from its init, from an
         "NaN: all sequences of length 4 (5) over {the same NaN object, a new NaN object, 1, 1.0} on SBlock/FuncBlock/"
         "InputExp senders; persistent Input/Counter/InputExp/Timer run TWICE over the same storage (the restored "
         "output of the second run is the first assignment of that run). "
+        "formatting stress: every ordered pair (v, w) of {(), (1,2), ('a',), ('%s',1), '%s', '%', '%(name)s', '{0}', "
+        "3000-char string, nested tuples, dicts, 1} as v, v, w, w, v on S (0/2 on_every_output events) and C senders, "
+        "InputExp and persistent Input. Exceptions of the code under test are outcomes (err <Class> [aborted]), never "
+        "harness errors. "
         "distinct = hash of (lines, trace); non-trivial = at least one event reached a destination")
 ASSUMPTIONS = [
     "destinations accept every event and never make the sender assign again while they are served "
@@ -47,6 +52,8 @@ ASSUMPTIONS = [
     "values: None, bools, ints, floats (exact rationals), strings, flat tuples/lists of these; "
     "no objects with a user-defined __eq__; float NaN at top level only (the same object repeatedly and new objects)",
     "UNDEF as an assigned value is exercised on the sequential sender with a direct set_output call only",
+    "nested tuples and dicts travel as reserved strings carrying their repr (equal iff same repr within the pools); "
+    "the scripted filters and the recording destinations never raise: any exception comes from the code under test",
 ]
 EXHAUSTIVE = {'quick': False, 'thorough': False}
 
@@ -54,6 +61,9 @@ UNDEF = edzed.UNDEF
 SIX = ['i1', 'b1', 'f1/1', 'i0', 'n', 't[]']
 MORE = SIX + ['t[i1]', 's61', 'b0', 'f0/1', 't[b1]', 't[f1/1]', 'i2', 's', 'f1/2', 'l[]', 'l[i1]',
               't[i1,i2]', 's62', 'i-1', 't[n]', 'nan', 'nan!']
+# values that stress string formatting / repr / comparison of the code that handles an assignment
+FMT = ['t[]', 't[i1,i2]', 't[s61]', 't[s2573,i1]', 's2573', 's25', 's25286e616d652973', 's7b307d', 's' + '61' * 3000,
+       'o:((1, 2), 3)', "o:(1, (2, 'x'))", "o:{'a': 1}", "o:{'a': (1, 2), 'b': '%s'}", 'i1']
 NANS = ['nan', 'nan', 'nan!', 'f1/1', 'i1', 'n']      # NaN: the same object repeatedly / a new one / others
 NPROBES = 4
 
@@ -66,8 +76,19 @@ NAN = math.nan                  # ONE object, like a module level "no valid meas
 NAN_CARRIER = '\x00NaN'
 
 
+OBJ_CARRIER = '\x00obj:'
+_ATOMS = (type(None), bool, int, float, str)
+
+
 def _carrier(v):
-    return NAN_CARRIER if isinstance(v, float) and v != v else v
+    """values outside the model's flat domain travel as reserved strings: float NaN, and nested tuples / dicts
+    (carried as their repr: in the pools below two such values are equal iff their reprs are equal, and all
+    of them are true values like the non-empty carrier string)"""
+    if isinstance(v, float) and v != v:
+        return NAN_CARRIER
+    if isinstance(v, dict) or (isinstance(v, (tuple, list)) and not all(isinstance(x, _ATOMS) for x in v)):
+        return OBJ_CARRIER + repr(v)
+    return v
 
 
 def enc(v):
@@ -105,6 +126,8 @@ def dec(s):
         return NAN                  # the very same object every time
     if s == 'nan!':
         return float('nan')         # a new NaN object every time
+    if s[:2] == 'o:':
+        return ast.literal_eval(s[2:])      # nested tuple / dict, a new object every time
     if s[0] in 'tl' and s[1:2] == '[':
         body = s[2:-1]
         items = [dec_atom(x) for x in body.split(',')] if body else []
@@ -307,7 +330,8 @@ def make_filter(script, mode, slot, idx, fidx):
         if op == 'R':
             return (False, None, 0)[mode % 3]
         if op == 'T':
-            return d.get(script[1])
+            ret = d.get(script[1])      # the item itself is the verdict -- unless it is a dict VALUE, which
+            return bool(ret) if isinstance(ret, MutableMapping) else ret    # Event.send would take for new data
         if op == 'U':
             return d.get(script[1]) is not UNDEF
         if op == 'M':               # a new mapping of any size replaces the data
@@ -429,7 +453,7 @@ def random_scenario(rng, maxlen):
             out.append({'dest': rng.randrange(NPROBES), 'filters': fl,
                         'fmode': rng.randrange(36), 'byname': rng.random() < 0.3})
         return out
-    pool = rng.choice([SIX, MORE, MORE, NANS, ['i1', 'b1', 'f1/1'], ['i0', 'b0', 'f0/1', 'n', 't[]', 's', 'l[]'],
+    pool = rng.choice([SIX, MORE, MORE, NANS, FMT, ['i1', 'b1', 'f1/1'], ['i0', 'b0', 'f0/1', 'n', 't[]', 's', 'l[]'],
                        ['t[i1]', 't[b1]', 't[f1/1]', 'l[i1]', 'i1']])
     n = rng.choice([1, 2, 3, 5, 8, 13, 21, maxlen]) if rng.random() < 0.8 else rng.randint(1, maxlen)
     ops = []
@@ -475,6 +499,7 @@ def scenarios(rng, tier):
                    'ops': ['i1', 'b1', 'i0', 't[]']}
             yield {'kind': 'C', 'on': [plain, ev], 'every': [], 'forms': ['auto', 'auto'], 'via': 'sim',
                    'ops': ['i1', 'b1', 'i0', 't[]']}
+    yield from fmt_fixed(tier)
     yield from nan_fixed(tier)
     yield from persist_fixed(tier)
     for k in range(nrandom // 6):
@@ -484,6 +509,23 @@ def scenarios(rng, tier):
         yield fsm_random(rng, 40)
     for k in range(nrandom):
         yield random_scenario(rng, maxlen)
+
+
+def fmt_fixed(tier):
+    """every ordered pair (v, w) of the formatting-stress values: v, v, w, w, v -- equal re-assignments (the
+    "unchanged" branch, with and without on_every_output events) and changes"""
+    for v, w in itertools.product(FMT, repeat=2):
+        if tier == 'quick' and len(v) > 100 and len(w) > 100:
+            continue
+        ops = [v, v, w, w, v]
+        for k, (a, b) in enumerate(((1, 0), (1, 2), (0, 1))):
+            yield {'kind': 'S', 'on': mk_events('o', a), 'every': mk_events('e', b), 'forms': ['auto', 'auto'],
+                   'via': ('event', 'direct', 'mixed')[(k + len(v)) % 3], 'ops': ops}
+        yield {'kind': 'C', 'on': mk_events('o', 1), 'every': [], 'forms': ['auto', 'auto'], 'via': 'sim', 'ops': ops}
+    for v in FMT:
+        yield fsm_scenario('inputexp', {'duration': 1.0, 'expired': 'n', 'initdef': 'u'},
+                           [['put', v], ['put', v], ['wait', 1500000], ['put', v]], 1, 2)
+        yield persist_scenario('input', [['put', v], ['put', v]], [['put', v]], 1, 2)
 
 
 def nan_fixed(tier):
@@ -581,7 +623,7 @@ def fsm_random(rng, maxlen):
     elif fsm == 'inputexp':
         cfg = {'duration': rng.choice([1.0, 0.25]), 'expired': rng.choice(['n', 'i0', 'b0', 's', 't[]']),
                'initdef': rng.choice(['u', 'i1', 'n', 't[]'])}
-        pool = rng.choice([SIX, MORE, NANS, ['i1', 'b1', 'f1/1'], ['i0', 'b0', 'n', 't[]', 's']])
+        pool = rng.choice([SIX, MORE, NANS, FMT, ['i1', 'b1', 'f1/1'], ['i0', 'b0', 'n', 't[]', 's']])
         ops = [(['put', rng.choice(pool)] if rng.random() < 0.8 else
                 ['wait', rng.choice([100000, 249999, 250000, 600000, 1000000, 1500000])]) for _ in range(n)]
     else:
@@ -683,58 +725,89 @@ def _run_once(scn, ops, storage=None):
         info['inp'] = inp
         return blk
 
+    def stim(func, *args, **kwargs):
+        """one stimulus; whatever the code under test raises is an OUTCOME, recorded in the log (the exception
+        of an assignment is also in its begin/end record); False = the simulation is over"""
+        try:
+            func(*args, **kwargs)
+        except Exception as err:
+            LOG.append(('raised', err))
+        if sim.circuit.error is not None:
+            LOG.append(('aborted', sim.circuit.error))
+            return False
+        return True
+
     async def drive(sim, blk):
         LOG.append(('init_done', blk._output))
+        alive = sim.circuit.error is None
         if kind == 'S':
             via = scn.get('via', 'event')
             for i, tok in enumerate(ops[1:]):
+                if not alive:
+                    break
                 v = dec(tok)
                 direct = via == 'direct' or (via == 'mixed' and i % 2 == 0) or v is UNDEF
                 if direct:
-                    try:
-                        blk.set_output(v)
-                    except ValueError:
-                        pass
+                    alive = stim(blk.set_output, v)
                 else:
-                    edzed.ExtEvent(blk, 'set').send(v)
+                    alive = stim(edzed.ExtEvent(blk, 'set').send, v)
                 if i % 7 == 3:
                     await vtime.settle(sim.loop)
         elif kind in ('F', 'P'):
             for op in ops:
+                if not alive:
+                    break
                 if op[0] == 'wait':
                     await vtime.advance_to(sim.loop, sim.loop.now_us + op[1])
+                    alive = stim(lambda: None)
                 elif op[0] == 'put':
-                    edzed.ExtEvent(blk, 'put').send(dec(op[1]))
+                    alive = stim(edzed.ExtEvent(blk, 'put').send, dec(op[1]))
                 else:
-                    edzed.ExtEvent(blk, op[1]).send()
+                    alive = stim(edzed.ExtEvent(blk, op[1]).send)
         else:
             settle = scn.get('settle') or []
             await vtime.settle(sim.loop)
+            alive = stim(lambda: None)
             for k in range(1, len(ops)):
-                edzed.ExtEvent(info['inp'], 'put').send(k)
+                if not alive:
+                    break
+                alive = stim(edzed.ExtEvent(info['inp'], 'put').send, k)
                 if k >= len(settle) or settle[k] or k == len(ops) - 1:
                     await vtime.settle(sim.loop)
+                    alive = alive and stim(lambda: None)
         await vtime.settle(sim.loop)
-        info['error'] = sim.circuit.error
-        info['final'] = blk._output
+        if alive:
+            stim(lambda: None)
 
     try:
         sim.run(build, drive)
     finally:
         log = list(LOG)
         del LOG[:]
-        CTX['sender'] = None
+        sender, CTX['sender'] = CTX['sender'], None
+    info['final'] = sender._output
     if sim.init_error is not None:
-        raise RuntimeError(f'circuit did not initialise: {sim.init_error!r}')
-    if info.get('error') is not None:
-        raise RuntimeError(f'simulation error: {info["error"]!r}')
+        # the initialisation failed in the code under test: an outcome, not a harness problem
+        log.append(('raised', sim.init_error))
+        log.append(('aborted', sim.circuit.error or sim.init_error))
 
     # cut the log into assignments
     assignments, stray, cur = [], [], None
     trans, ntrans = None, 0
+    raised, aborted = [], None
     for rec in log:
         tag = rec[0]
-        if tag == 'init_done':
+        if tag in ('raised', 'aborted'):
+            real = [a for a in assignments if not a.get('skip')]
+            last = real[-1] if real else None
+            if tag == 'aborted':
+                aborted = rec[1]
+                if last is not None and last.get('exc') is not None:
+                    last['aborted'] = True
+            elif last is None or last.get('exc') is None or not _same_exc(last['exc'], rec[1]):
+                # an exception that does not come out of an assignment (UNDEF is refused with ValueError)
+                raised.append(rec[1])
+        elif tag == 'init_done':
             if rec[1] is not UNDEF and not [a for a in assignments if not a.get('skip')]:
                 # the block has an output after its initialisation but never assigned it
                 assignments.append({'value': rec[1], 'before': UNDEF, 'recs': [], 'has_value': True,
@@ -745,7 +818,8 @@ def _run_once(scn, ops, storage=None):
             _t, ok, val, _state, output, exc = rec
             inside = assignments[trans['n0']:] if trans is not None else []
             if exc is not None:
-                stray.append(('transition-raised', rec))
+                if not any(a.get('exc') is not None for a in inside):
+                    stray.append(('transition-raised', rec))
             elif ok and val is not UNDEF:
                 ntrans += 1
                 if not inside:
@@ -799,7 +873,7 @@ def _run_once(scn, ops, storage=None):
             raise RuntimeError('eval_block without calc_output')
         lines.append(('output fsm ' if kind == 'F' else 'output assign ') + enc(a['value']))
         if a['exc'] is not None:
-            t = 'err ' + ('ValueError' if isinstance(a['exc'], ValueError) else type(a['exc']).__name__)
+            t = 'err ' + type(a['exc']).__name__ + (' aborted' if a.get('aborted') else '')
         else:
             t = f"ok {enc(a['after'])} r{'-' if kind != 'C' else int(bool(a['ret']))}"
         for rec in a['recs']:
@@ -835,7 +909,18 @@ def _run_once(scn, ops, storage=None):
             tags.append('restored_first_output=yes')
     return {'lines': lines, 'trace': trace, 'tags': tags, 'nontrivial': ndeliv > 0,
             'assignments': assignments, 'stray': stray, 'name': name, 'final': info['final'],
-            'planned': len(ops), 'transitions': ntrans}
+            'planned': len(ops), 'transitions': ntrans, 'raised': raised, 'aborted': aborted}
+
+
+def _same_exc(a, b):
+    """b is a, or b was raised because of a (edzed wraps handler errors, chains with __cause__/__context__)"""
+    seen = 0
+    while b is not None and seen < 10:
+        if b is a:
+            return True
+        b = b.__cause__ or b.__context__
+        seen += 1
+    return False
 
 
 def act_str(rec):
@@ -894,7 +979,11 @@ def oracle_once(scn, res):
     elif res['stray']:
         out_v.append(_v('synchronous_delivery',
                         f'{len(res["stray"])} record(s) outside an assignment, first: {res["stray"][0]!r:.300}'))
-    if kind == 'S' and len(asg) != res['planned']:
+    if res['raised'] or (res['aborted'] is not None and not any(a.get('aborted') for a in asg)):
+        out_v.append(_v('assignment_never_raises',
+                        f'the block raised outside an assignment / the simulation was aborted: '
+                        f'{[repr(e) for e in res["raised"]]!r:.300} aborted={res["aborted"]!r:.200}'))
+    if kind == 'S' and len(asg) != res['planned'] and res['aborted'] is None:
         out_v.append(_v('synchronous_delivery', f'{res["planned"]} set_output calls, {len(asg)} completed'))
 
     # the history of the output, from the assigned values only
@@ -931,7 +1020,10 @@ def oracle_once(scn, res):
                 break
             continue
         if a['exc'] is not None:
-            out_v.append(_v('synchronous_delivery', f'{where}: raised {a["exc"]!r}'))
+            out_v.append(_v('assignment_never_raises',
+                            f'{where}: the assignment of a value that is not UNDEF (output before: {cur!r}) raised '
+                            f'{a["exc"]!r}' + ('; the simulation was aborted' if a.get('aborted') else '')
+                            + f'; events sent before the exception: {len([r for r in recs if r[0] == "d"])}'))
             break
         changed = not (cur == v)
         new = v if changed else cur
